@@ -85,6 +85,7 @@ func c04Disengage(run *PropRun) {
 				req{"focus", strip(fields["enableFocus"]), strip(fields["disableFocus"])},
 				req{"cursor-shape", fields["cursorStyles.default"], strip(fields["cursorStyles.default"])},
 				req{"cursor-colour", strip(fields["cursorRGB"]), strip(fields["cursorFg"])},
+				req{"hyperlink", strip(fields["enterUrl"]), strip(fields["exitUrl"])},
 			)
 			if fields["mouse"] != "" {
 				reqs = append(reqs, req{"mouse", "x", "\x1b[?1000l\x1b[?1002l\x1b[?1003l\x1b[?1006l"})
@@ -347,7 +348,7 @@ func c04Eval(db *TermDB, te *TermEntry, env string, fn *ssa.Function) ([]c04Out,
 			nf.F[i] = v
 		case "cursorColor":
 			nf.F[i] = Fresh("cursorColor", c.sortOfBasic(f.Type()))
-		case "enablePaste", "disablePaste", "enableFocus", "disableFocus", "saveTitle", "restoreTitle", "cursorRGB", "cursorFg", "setTitle":
+		case "enablePaste", "disablePaste", "enableFocus", "disableFocus", "saveTitle", "restoreTitle", "cursorRGB", "cursorFg", "setTitle", "enterUrl", "exitUrl":
 			if s, ok := tv.F[i].(StrV); ok && s.Conc != nil {
 				fields[f.Name()] = *s.Conc
 			}
@@ -413,6 +414,8 @@ func c04Replay(term, env, mode, off string) string {
 		hist = "s.SetCursorStyle(CursorStyleSteadyBar); s.ShowCursor(1, 1); s.Show(); s.SetCursorStyle(CursorStyleDefault)"
 	case "cursor-colour":
 		hist = "s.SetCursorStyle(CursorStyleSteadyBar, ColorRed); s.ShowCursor(1, 1); s.Show(); s.SetCursorStyle(CursorStyleSteadyBar); s.Show()"
+	case "hyperlink":
+		hist = "s.Show(); s.SetContent(5, 2, 'x', nil, StyleDefault.Url(\"http://example.com\")); s.Show()"
 	}
 	return replayTest("tcell", []string{"os", "strings", "sync", modPath + "/terminfo", "_ " + modPath + "/terminfo/base", "_ " + modPath + "/terminfo/extended"}, fmt.Sprintf(`
 	os.Setenv("TCELL_ALTSCREEN", %q)
